@@ -1,5 +1,5 @@
 SPECIFICATION Spec
-CONSTANT PushImms = {128, 1, 255}
+CONSTANT PushImms = {128, 1}
 CONSTANT MaxLen = 6
 INVARIANT Sane
 INVARIANT Unambiguous
